@@ -83,6 +83,11 @@ def main(tier, seed):
                 p.append("e%d" % rng.randrange(len(POOL)))
         progs.append(p)
     jobs = [(w_fault, (exe, idnexe, progs[i:i + 1500], "faults")) for i in range(0, len(progs), 1500)]
+    # the same containment with several threads failing at once with *different* codes (natural IDN failures; own eav_t per thread): the
+    # message must still be the library's message for that thread's code.  Runner and pool of C14, uninstrumented, full speed.
+    thr = cx.exe("plain-thr", driver=("drv/thr.c",), san="plain-O2")
+    for j in range(3):
+        jobs.append((w_threads, (thr, 16 if j else 4, 8000 if tier == "quick" else 80000, seed * 10 + j)))
     for part in core.pmap(_run, jobs):
         rep.merge(part)
     c = rep.counters
@@ -95,6 +100,30 @@ def main(tier, seed):
                       "free+init; distinct = histories" % (len(codes), runs),
                       {"codes": codes, "faults_fired": c["faults.fired"], "faults_planned": c["faults.planned"],
                        "faults_not_fired": c["faults.not-fired"], "builds": cx.builds_info()})
+
+
+def w_threads(exe, T, iters, seed):
+    import collections, json
+    from . import c14
+    part = {"counters": collections.Counter(), "viol": [], "samples": [], "distinct": 0, "sets": {}}
+    res = c14.w_plain(exe, T, iters, seed, 2, "idn")
+    try:
+        info = json.loads(res["out"]) if res["out"] else None
+    except ValueError:
+        info = None
+    if res["rc"] is None:
+        part["viol"].append(("concurrent-failures/hang", {"threads": T, "seed": seed}, {}))
+    elif res["rc"] != 0 or info is None:
+        part["viol"].append(("concurrent-failures/crash/%s" % driver.crash_signature(res["err"], res["rc"]), {"threads": T, "seed": seed},
+                             {"stderr": res["err"][-1200:]}))
+    else:
+        part["counters"]["threads.calls"] += info["calls"]
+        part["counters"]["threads.calls_overlapping_another_thread"] += info["calls_overlapping_another_thread"]
+        if info["mismatches"]:
+            fm = info.get("first_mismatch", {})
+            part["viol"].append(("concurrent-failures/outcome-or-message-differs-from-sequential", {"threads": T, "seed": seed,
+                                  "input": core.b2s(bytes.fromhex(fm.get("input", ""))) if fm else None}, {"mismatches": info["mismatches"], "first": fm}))
+    return part
 
 
 def _run(fn, args):
